@@ -8,9 +8,7 @@ NewUnion(lgMax) == [lgMax |-> lgMax, g |-> NewSketch(lgMax, 8)]
 
 CouponSeq(src) == IF src.mode = "list" THEN src.list ELSE TabSeq(src.tab, src.setLg)
 
-RECURSIVE SketchUpdateAll(_, _)
-SketchUpdateAll(st, cs) ==
-  IF cs = <<>> THEN st ELSE SketchUpdateAll(Update(st, Head(cs)), Tail(cs))
+SketchUpdateAll(st, cs) == FoldLeft(LAMBDA acc, c : Update(acc, c), st, cs)
 
 \* register array of lgK = lg obtained by folding regs (a function on 0..2^srcLg-1)
 FoldMax(regs, srcLg, lg) ==
